@@ -1,6 +1,8 @@
 import SeaQ.Model.Util
 import SeaQ.Model.Token
 import SeaQ.Model.Escape
+import SeaQ.Model.Literal
+import SeaQ.Model.Ident
 /-! Line-protocol driver: one request per line on stdin, one canonical result line on stdout. -/
 open SeaQ SeaQ.Util
 
@@ -33,6 +35,23 @@ def handle (line : String) : String :=
   | ["unesc", b, s] =>
     match backendOf b, decodeStr s with
     | some b, some cs => "ok " ++ encodeStr (Escape.unescape b cs)
+    | _, _ => "bad-op"
+  | ["lit", b, "str", s] =>
+    match backendOf b, decodeStr s with
+    | some b, some cs => "ok " ++ encodeStr (Literal.writeStr b cs)
+    | _, _ => "bad-op"
+  | ["lit", b, "char", n] =>
+    match backendOf b, decodeNat n with
+    | some b, some k =>
+      "ok " ++ encodeStr (Literal.charLit b (Char.ofNat k))
+    | _, _ => "bad-op"
+  | ["lit", b, "bytes", s] =>
+    match backendOf b, decodeBytes s with
+    | some b, some bs => "ok " ++ encodeStr (Literal.writeBytes b bs)
+    | _, _ => "bad-op"
+  | ["ident", b, s] =>
+    match backendOf b, decodeStr s with
+    | some b, some cs => "ok " ++ encodeStr (Ident.prepare (Ident.quoteOf b) cs)
     | _, _ => "bad-op"
   | _ => "bad-op"
 
